@@ -18,8 +18,9 @@ CHECKS = {
              'that the parsed content equals the content the speller was given (nothing dropped, nothing invented, order kept) and '
              'that spellings (incl. inline/short/block Ref and addressing) do not matter. Named departures from well-formedness '
              'are replayed as known findings. Parse-of-spelling theorems exist for two element kinds in the renderer\'s spelling '
-             '(parseDoc_tables + build_tables: any number of tables with any number of plain columns, each once and in source '
-             'order; parseDoc_sticky) and are partial; theorems '
+             '(parseDoc_tables_refs + build_tables_refs + buildRef_plain: any number of tables with plain columns followed by '
+             'standalone references, each declaration once, in source order, references linked to the named columns; '
+             'parseDoc_enum; parseDoc_sticky) and are partial; theorems '
              'about the same model for any text are claimed under C05/C06/C07/C08.',
         note='trusted: hand-written model tied by sampling; the speller (harness/speller.py) as independent expected-model oracle',
         technique='Lean parser model + differential correspondence + speller oracle'),
@@ -29,7 +30,9 @@ CHECKS = {
              'databases parsed from spelled documents (no exemption: whatever a parse returns must round-trip), built through the '
              'public classes from Expressible values, the corpus, and wild API-built ones whose named reason outside Expressible '
              'must be a listed finding. Correspondence: the Lean DBML renderer produces the same text and the Lean parser model '
-             'reads it back to the same content. Theorems tables_roundtrip_partial (any positive number of tables with different '
+             'reads it back to the same content. Theorems refs_roundtrip_partial (plain tables followed by any number of different '
+             'standalone references, resolved by name back to the positions they were written from - the hypotheses on names are exactly the '
+             'recorded findings), tables_roundtrip_partial (any positive number of tables with different '
              'names, each with any positive number of columns with quoted names and one-word types), enum_roundtrip_partial (an enum with '
              'any positive number of items) and sticky_roundtrip_partial prove the round trip end to end (renderer model, '
              'character-level parser model, build model) - partial: everything else is decided by oracle + correspondence. Lexical round-trip '
